@@ -210,6 +210,7 @@ def leak_components(w, mon):
 
 def examine(w, x):
     mon = x.mon
+    x.notes.append(('pooled', w.db.provider.pool.con is not None))
     comps = state_components(w, mon)
     more, ran = followups(w, mon, any(c.endswith('lock-held') for c in comps))
     comps += more
@@ -251,7 +252,7 @@ def run_shape(task):
             if len(plan) == 2:
                 sub.count('double_fault_plans')
                 if len(x.fired) == 2: sub.count('double_fault_plans_both_fired')
-        pooled = w.db.provider.pool.con is not None
+        pooled = dict(n for n in x.notes if isinstance(n, tuple) and n[0] == 'pooled')['pooled']
         closes = sum(x.mon.close_attempts.values())
         outcomes.add('%s|%s|%s|%s|pooled=%s|closes=%d' % (family, 'warm' if warm else 'cold', sites(None, x), x.exc_name(), pooled, closes))
         if x.exc is not None: sub.count('programs_ending_with_exception')
